@@ -300,6 +300,8 @@ class RecordingEvaluator:
             else:
                 rows = np.flatnonzero((c.realizations == rule["r"]) & (perts == rule["p"]))
             vals[rows, rule["col"]] = np.nan
+        for rule in self.spec.get("inf", []):
+            vals[:, rule["col"]] = INF if rule["sign"] > 0 else -INF      # a simulator that overflows in one output
         if self.garbage is not None:
             for j in range(self.n_obj):
                 if c.active_objectives is not None:
